@@ -1,0 +1,13 @@
+//go:build !verif
+
+package bbolt
+
+import fl "go.etcd.io/bbolt/internal/freelist"
+
+// No-op twins of the verification hooks (see verif_hooks.go, build tag "verif").
+
+func verifIO(db *DB, kind string, off int64, data []byte) error { return nil }
+
+func verifWrapOps(db *DB) {}
+
+func verifWrapFreelist(db *DB, f fl.Interface) fl.Interface { return f }
